@@ -314,7 +314,7 @@ def tasks(tier, seed):
             for ep in (1, 2):
                 if tier == 'quick' and ep == 2 and (m == 2 or sk.name == 'r3'):
                     continue
-                T.append(Task('train_on/%s/m%d/ep%d' % (sk.name, m, ep), h_train, (sk, m, ep, 10 if sk.name == 'r3' else 12), tier='B', max_paths=8000, deadline_s=400))
+                T.append(Task('train_on/%s/m%d/ep%d' % (sk.name, m, ep), h_train, (sk, m, ep, (8 if (m == 1 and ep == 2) else 10) if sk.name == 'r3' else 12), tier='B', max_paths=8000, deadline_s=400))
     T.append(Task('rt/real-seeds', rt_real, (seed, 25 if tier == 'quick' else 200), tier='R', kind='rt'))
     return T
 
